@@ -15,7 +15,7 @@ import DiffxVerif.Properties.C05Tree
 
 `Properties/C05Tree.lean` proves both under hypotheses about the environment (`ProgramLaws`,
 `ReLaws`), with a normalised tree `expectedTree … laws` that is *indexed by the laws*.
-`Properties/C01Concrete.lean` derives `ProgramLaws` from acceptance for the six executable codecs.
+`Properties/C01Concrete.lean` derives `ProgramLaws` from acceptance for the executable codecs of `Model/Codecs.lean`.
 This file composes the two and removes every law from the statements: for
 `env := Codecs.env dumps loadsText loadsBytes`, `cfg := Codecs.cfg` (the BOM table of the repository),
 
@@ -70,7 +70,7 @@ theorem C05_cfg_chunk_pos : 0 < Codecs.cfg.chunk := cfg_chunk_pos
 section Concrete
 variable (dumps : Json → EnvR Text) (loadsText : Text → EnvR Json) (loadsBytes : Bytes → EnvR Json)
 
-/-- **Object-model round trip, no hypothesis about codecs.**  For the six codecs and the BOM table
+/-- **Object-model round trip, no hypothesis about codecs.**  For the concrete codecs and the BOM table
 of the repository: for every well-formed tree whose metadata contents are JSON objects, that
 serialises without error (main `encoding` a `str`, version 1.0) to bytes that fit one read,
 parsing the bytes yields exactly `normalisedTree 4 t` — a function of the tree alone. -/
@@ -108,7 +108,7 @@ theorem C06_fixed_point_concrete (hjson : JsonLaws dumps loadsText) (wv : Text) 
       .ok b :=
   tree_fixed_concrete dumps loadsText loadsBytes hjson wv t b hk hd h enc calls hcalls hsize
 
-/-- **Parse then re-serialise is the identity on library-produced files** (C06), for the six
+/-- **Parse then re-serialise is the identity on library-produced files** (C06), for the concrete
 codecs: `from_bytes b` succeeds with some tree `t'` and `to_bytes t' = b`. -/
 theorem C06_parse_serialise_concrete (hjson : JsonLaws dumps loadsText) (wv : Text) (t : Tree) (b : Bytes)
     (hk : TreeOk t) (hd : TreeDicts t)
@@ -344,6 +344,110 @@ example : toBytes menv Codecs.cfg cver cloaded = .ok cbytes := rfl
 set_option maxRecDepth 65536 in
 /-- idempotence on the instance, by evaluation -/
 example : normalisedTree Codecs.cfg.defaultIndent cloaded = cloaded := rfl
+
+/-! ## A second tree: utf-32 (BOM), windows-1252, utf-8-sig, utf-32-be -/
+
+/-- a UTF-32 (BOM) main preamble that starts with U+FEFF, indented by 2, CRLF on its first line and no
+final line ending; a windows-1252 change whose preamble (`indent=None`) holds the euro sign, curly
+quotes and the trade mark sign; a file with UTF-8-SIG metadata and a UTF-32-BE diff whose eight-byte
+CRLF is detected and whose final CRLF is missing -/
+def ctree2 : Tree :=
+  { opts := [(b!"encoding", .str t!"utf-8"), (b!"version", .str t!"1.0")]
+    preamble := ⟨.preamble,
+      [(b!"encoding", .str t!"utf-32"), (b!"indent", .int 2), (b!"mimetype", .str t!"text/plain")],
+      .str t!"\uFEFFhé😀\r\nw"⟩
+    metaSec := newMeta
+    changes := [
+      { opts := [(b!"encoding", .str t!"windows-1252")]
+        preamble := ⟨.preamble, [(b!"indent", .none)], .str t!"€ “x”™"⟩
+        metaSec := ⟨.metadata, [(b!"format", .str t!"json")], .dict j2⟩
+        files := [
+          { opts := []
+            metaSec := ⟨.metadata, [(b!"format", .str t!"json"), (b!"encoding", .str t!"utf-8-sig")], .dict jk⟩
+            diff := ⟨.diff, [(b!"encoding", .str t!"utf-32-be")],
+              .bytes [0, 0, 0, 45, 0, 0, 0, 120, 0, 0, 0, 13, 0, 0, 0, 10, 0, 0, 0, 43, 0, 0, 0, 121]⟩ }] }] }
+
+theorem ctree2_ok : TreeOk ctree2 := by decide
+theorem ctree2_dicts : TreeDicts ctree2 := by decide
+
+/-- the 517 bytes `to_bytes` produces: the UTF-32 BOM once, after the indentation, then the encoded
+U+FEFF; the UTF-8 signature at the start of the metadata -/
+def cbytes2 : Bytes :=
+  b!"#diffx: encoding=utf-8, version=1.0\n#.preamble: encoding=utf-32, indent=2, length=44, line_endings=dos, mimetype=text/plain\n  " ++
+  [255, 254, 0, 0, 255, 254, 0, 0, 104, 0, 0, 0, 233, 0, 0, 0, 0, 246, 1, 0, 13, 0, 0, 0, 10, 0, 0, 0] ++ b!"  " ++
+  [119, 0, 0, 0, 13, 0, 0, 0, 10, 0, 0, 0] ++
+  b!"#.change: encoding=windows-1252\n#..preamble: length=7, line_endings=unix\n" ++ [128, 32, 147, 120, 148, 153, 10] ++
+  b!"#..meta: format=json, length=67\n{\n    \"a\": \"\\u00e9\",\n    \"b\": [\n        null,\n        true\n    ]\n}\n" ++
+  b!"#..file:\n#...meta: encoding=utf-8-sig, format=json, length=18\n" ++ [239, 187, 191] ++ b!"{\n    \"k\": 1\n}\n" ++
+  b!"#...diff: encoding=utf-32-be, length=32, line_endings=dos\n" ++
+  [0, 0, 0, 45, 0, 0, 0, 120, 0, 0, 0, 13, 0, 0, 0, 10, 0, 0, 0, 43, 0, 0, 0, 121, 0, 0, 0, 13, 0, 0, 0, 10]
+
+set_option maxRecDepth 65536 in
+theorem ctree2_bytes : toBytes menv Codecs.cfg cver ctree2 = .ok cbytes2 := rfl
+
+set_option maxRecDepth 65536 in
+theorem cbytes2_length : cbytes2.length = 517 := by decide
+
+def ccalls2 : List Writer.Call :=
+  [.preamble (.str t!"\uFEFFhé😀\r\nw") (some t!"utf-32") (some 2) none (some t!"text/plain"),
+   .newChange (some t!"windows-1252"),
+   .preamble (.str t!"€ “x”™") none none none none,
+   .metadata (.dict j2) none t!"json",
+   .newFile none,
+   .metadata (.dict jk) (some t!"utf-8-sig") t!"json",
+   .diff (.bytes [0, 0, 0, 45, 0, 0, 0, 120, 0, 0, 0, 13, 0, 0, 0, 10, 0, 0, 0, 43, 0, 0, 0, 121]) none
+     (some t!"utf-32-be") none]
+
+theorem ctree2_calls :
+    toCalls Codecs.cfg.defaultIndent ctree2 cver = .ok (some t!"utf-8", Text.ofAscii b!"1.0", ccalls2) := rfl
+
+/-- the normalised tree, written out -/
+def cloaded2 : Tree :=
+  { opts := [(b!"encoding", .str t!"utf-8"), (b!"version", .str t!"1.0")]
+    preamble := ⟨.preamble,
+      [(b!"encoding", .str t!"utf-32"), (b!"indent", .int 2), (b!"line_endings", .str t!"dos"),
+       (b!"mimetype", .str t!"text/plain")],
+      .str t!"\uFEFFhé😀\r\nw\r\n"⟩
+    metaSec := newMeta
+    changes := [
+      { opts := [(b!"encoding", .str t!"windows-1252")]
+        preamble := ⟨.preamble, [(b!"line_endings", .str t!"unix"), (b!"indent", .none)], .str t!"€ “x”™\n"⟩
+        metaSec := ⟨.metadata, [(b!"format", .str t!"json")], .dict j2⟩
+        files := [
+          { opts := []
+            metaSec := ⟨.metadata, [(b!"encoding", .str t!"utf-8-sig"), (b!"format", .str t!"json")], .dict jk⟩
+            diff := ⟨.diff, [(b!"encoding", .str t!"utf-32-be"), (b!"line_endings", .str t!"dos")],
+              .bytes [0, 0, 0, 45, 0, 0, 0, 120, 0, 0, 0, 13, 0, 0, 0, 10, 0, 0, 0, 43, 0, 0, 0, 121, 0, 0, 0, 13,
+                0, 0, 0, 10]⟩ }] }] }
+
+set_option maxRecDepth 65536 in
+theorem cnormalised2_eq : normalisedTree Codecs.cfg.defaultIndent ctree2 = cloaded2 := rfl
+
+/-- **`C05_tree_roundtrip_concrete` instantiated on the second tree** -/
+theorem C05_concrete_instance2 : fromBytes menv Codecs.cfg cver cbytes2 = .ok cloaded2 := by
+  have hsz : cbytes2.length ≤ Reader.maxRead := by rw [cbytes2_length]; decide
+  have hb := ctree2_bytes
+  unfold menv at hb ⊢
+  rw [← cnormalised2_eq]
+  exact C05_tree_roundtrip_concrete mockDumps mockLoads (fun _ => .err) mockJsonLaws cver ctree2 cbytes2 ctree2_ok
+    ctree2_dicts hb t!"utf-8" ccalls2 ctree2_calls hsz
+
+set_option maxRecDepth 65536 in
+/-- … true by evaluation as well -/
+example : fromBytes menv Codecs.cfg cver cbytes2 = .ok cloaded2 := rfl
+
+/-- **`C06_fixed_point_concrete` instantiated on the second tree** -/
+theorem C06_concrete_instance2 : toBytes menv Codecs.cfg cver cloaded2 = .ok cbytes2 := by
+  have hsz : cbytes2.length ≤ Reader.maxRead := by rw [cbytes2_length]; decide
+  have hb := ctree2_bytes
+  unfold menv at hb ⊢
+  rw [← cnormalised2_eq]
+  exact C06_fixed_point_concrete mockDumps mockLoads (fun _ => .err) mockJsonLaws cver ctree2 cbytes2 ctree2_ok
+    ctree2_dicts hb t!"utf-8" ccalls2 ctree2_calls hsz
+
+set_option maxRecDepth 65536 in
+/-- … true by evaluation as well -/
+example : toBytes menv Codecs.cfg cver cloaded2 = .ok cbytes2 := rfl
 
 /-! ## Why `TreeDicts` is needed (a fact about the plain-data model, not about pydiffx)
 
